@@ -1887,7 +1887,8 @@ class RepeatingEngine(Engine):
                     # As a remedy, use up any self._stateDict['repeatRetries'] before considering that
                     # the Engine is really finished when it does not terminate successfully after all of its
                     # producers have finished.
-                    if did_i_execute and my_process.returncode == 0 :
+                    # A task whose launch raised leaves `my_process` unset: that is a failed execution
+                    if did_i_execute and my_process is not None and my_process.returncode == 0:
                         self.kill()
                     elif self._suicide:
                         self.log.info("Servicing my \"kill-after-producers-done-delay\"")
